@@ -29,7 +29,7 @@ theorem Q_ge_eval (n : Nat) (q : P) (v : Int) (hnm : ¬ Mated G q) (h : Spec.Q G
     G.eval q ≤ v := by
   cases n with
   | zero => cases h
-  | succ n => exact (Q_children G n q v (not_mated_qList G hnm) h).2.1
+  | succ n => exact (Q_children G n q v (not_mated_qList G hnm) h).2.2.1
 
 /-- the value of a mated position at remaining depth `k`. -/
 theorem V_mated (qf k : Nat) (q : P) (x : Int) (h : Mated G q) (hv : Spec.V G qf k q = some x) :
